@@ -191,6 +191,11 @@ fn dirty_emulator(r: &mut Rng, m128: bool, kind: &str) -> Emu {
         fill_bank(&mut emu, m128, b, &junk);
     }
     out_port(&mut emu, 0x00FE, r.u8());
+    // a tune left playing: tone on A at full volume, a repeating envelope on B
+    for (reg, val) in [(0u8, 0x40u8), (1, 0x01), (7, 0x38), (8, 0x0F), (9, 0x10), (11, 7), (12, 0), (13, 0x0E)] {
+        out_port(&mut emu, 0xFFFD, reg);
+        out_port(&mut emu, 0xBFFD, val);
+    }
     match kind {
         "halted" => {
             poke_bytes(&mut emu, 0x9000, &[0x76]);
@@ -416,17 +421,31 @@ fn fileloads(out: &mut Out, r: &mut Rng, count: u64) {
         for (k, v) in ayregs.iter_mut().enumerate() {
             *v = r.u8() & [0xFF, 0x0F, 0xFF, 0x0F, 0xFF, 0x0F, 0x1F, 0xFF, 0x1F, 0x1F, 0x1F, 0xFF, 0xFF, 0x0F, 0xFF, 0xFF][k];
         }
-        let audible = r.chance(1, 2);
-        if audible {
-            // channel A: tone period 0x0123, tone enabled, volume 15, no envelope
-            ayregs[0] = 0x23;
-            ayregs[1] = 0x01;
-            ayregs[7] = 0xFE;
-            ayregs[8] = 0x0F;
-        } else {
-            ayregs[8] = 0;
-            ayregs[9] = 0;
-            ayregs[10] = 0;
+        // what the file's AY registers sound like: 0 = silence (all volumes 0, no envelope mode), 1 = a fixed-volume
+        // tone on A, 2 = tone and noise off everywhere and channel A following a repeating envelope
+        let aykind = r.below(3);
+        let audible = aykind != 0;
+        match aykind {
+            1 => {
+                ayregs[0] = 0x23;
+                ayregs[1] = 0x01;
+                ayregs[7] = 0xFE;
+                ayregs[8] = 0x0F;
+            }
+            2 => {
+                ayregs[7] = 0x3F;
+                ayregs[8] = 0x10;
+                ayregs[9] = 0;
+                ayregs[10] = 0;
+                ayregs[11] = 20;
+                ayregs[12] = 0;
+                ayregs[13] = *r.pick(&[0x08u8, 0x0A, 0x0C, 0x0E]);
+            }
+            _ => {
+                ayregs[8] = 0;
+                ayregs[9] = 0;
+                ayregs[10] = 0;
+            }
         }
         let ay = if r.chance(2, 3) { Some((r.below(16) as u8, ayregs)) } else { None };
         let mouse = match r.below(3) { 0 => None, 1 => Some(2u8), _ => Some(0u8) };
@@ -470,7 +489,8 @@ fn fileloads(out: &mut Out, r: &mut Rng, count: u64) {
                                     "opts":{"halted":halted && !is_sna,"eilast":eilast && !is_sna,
                                             "ay": if is_sna || ay.is_none() { json!([]) } else { json!([{"cur":ay.unwrap().0,"regs":ay.unwrap().1.to_vec()}]) },
                                             "mouse": if is_sna { -1 } else { mouse.map(|m| m as i32).unwrap_or(-1) },
-                                            "audible": audible && !is_sna && ay.is_some()},
+                                            "audible": audible && !is_sna && ay.is_some(),
+                                            "quiet": !audible && !is_sna && ay.is_some()},
                                     "outcome":outcome,"detail":detail,"is_sna":is_sna,"before":before});
                 if outcome == "ok" && m_emu == m_file {
                     let st = machine_state(&mut rx);
@@ -509,24 +529,26 @@ fn fileloads(out: &mut Out, r: &mut Rng, count: u64) {
                             rx.set_debug_interface(VDebug::Never);
                             rx.set_speed(rustzx_core::EmulationMode::FrameCount(1));
                             let mut energy = 0f64;
+                            let mut last = 0f64;
                             let mut n = 0usize;
-                            for _ in 0..3 {
+                            for _ in 0..4 {
                                 let _ = rx.emulate_frames(std::time::Duration::from_secs(100));
                                 let mut samples = vec![];
                                 while let Some(s) = rx.next_audio_sample() {
                                     samples.push(s.left as f64 + s.right as f64);
                                 }
                                 let mean = samples.iter().sum::<f64>() / samples.len().max(1) as f64;
-                                energy += samples.iter().map(|x| (x - mean).abs()).sum::<f64>();
+                                last = samples.iter().map(|x| (x - mean).abs()).sum::<f64>();
+                                energy += last;
                                 n += samples.len();
                             }
-                            (energy, n)
+                            (energy, n, last)
                         });
-                        if let Ok((energy, n)) = guard {
+                        if let Ok((energy, n, last)) = guard {
                             ev["after3"] = json!({"a": rx.verif_cpu().regs.get_acc(), "halted": rx.verif_cpu().halted,
-                                                   "pc": rx.verif_cpu().regs.get_pc(), "energy": (energy * 1000.0) as u64, "samples": n});
+                                                   "pc": rx.verif_cpu().regs.get_pc(), "energy": (energy * 1000.0) as u64, "energy_last": (last * 1000.0) as u64, "samples": n});
                         } else {
-                            ev["after3"] = json!({"a": -1, "halted": false, "pc": 0, "energy": 0, "samples": 0});
+                            ev["after3"] = json!({"a": -1, "halted": false, "pc": 0, "energy": 0, "energy_last": 0, "samples": 0});
                             ev["detail"] = json!(guard.err());
                         }
                     }
